@@ -125,7 +125,20 @@ func randomScenario(mode string, rng *rand.Rand, k int) scenario {
 		case 4:
 			// late starter: one honest member (the others still hold a strong quorum) starts the instance well after stabilisation, when
 			// everything the others ever sent sits in its future-instance queue
-			if id := lateCandidate(f.powers, sc.Byz); id > 0 {
+			// prefer a family with a faulty member (it plants a validly signed vote with a foreign base in the late starter's queue)
+			for try := 0; try < 20; try++ {
+				f2 := families[rng.Intn(len(families))]
+				for _, b := range f2.byz {
+					if len(b) > 0 && lateCandidate(f2.powers, b) > 0 {
+						f = f2
+						sc.Powers, sc.Byz, sc.Adversary = f2.powers, b, "forger"
+						sc.Inputs = mkInputs(inputShapes[rng.Intn(len(inputShapes))], len(f2.powers), rng, true)
+						try = 20
+						break
+					}
+				}
+			}
+			if id := lateCandidate(sc.Powers, sc.Byz); id > 0 {
 				sc.Late = id
 			}
 		}
